@@ -128,8 +128,43 @@ func (r *ref) blk(t T) {
 	r.w("]")
 }
 
+// wrapper: a generated wrapper template whose call site of the callee has a
+// particular source shape. The callee sees exactly what that block denotes:
+// nothing for whitespace/comment-only blocks (never the wrapper's own
+// children), the wrapper's children where `{ children... }` stands.
+func (r *ref) wrapper(t T, shape, callee string) {
+	w := r.w
+	base := t.K[:len(t.K)-1]
+	w(base + "#" + t.M + "[")
+	var children func()
+	switch shape {
+	case "ws", "gc", "gb", "nl", "nlt":
+		children = func() {}
+	case "hc":
+		children = func() { w("COMMENT(<!-- c -->)") }
+	case "ch", "chif":
+		children = func() { r.blk(t) }
+	case "ch2":
+		children = func() { r.blk(t); r.blk(t) }
+	case "cht":
+		children = func() { r.blk(t); w("T(tx)") }
+	}
+	r.gen(callee, t.M+".i", children)
+	switch shape {
+	case "nl": // `{ children... }` on the next line is a sibling of the call
+		r.blk(t)
+	case "nlt":
+		w("T(tx)")
+	}
+	w("]")
+}
+
 func (r *ref) node(t T) {
 	w := r.w
+	if sc, ok := wrapperBases[t.K[:len(t.K)-1]]; ok {
+		r.wrapper(t, sc[0], sc[1])
+		return
+	}
 	switch t.K[:len(t.K)-1] {
 	case "slot":
 		w("slot#" + t.M + "[")
@@ -260,8 +295,8 @@ func observed(b []byte) string {
 		case "end":
 			sb.WriteString("]")
 		case "text":
-			if strings.TrimSpace(t.Data) != "" {
-				fmt.Fprintf(&sb, "TEXT(%q)", t.Data)
+			for _, word := range strings.Fields(t.Data) { // whitespace is not C13's business
+				sb.WriteString("T(" + word + ")")
 			}
 		default:
 			sb.WriteString(strings.ToUpper(t.Kind) + "(" + t.Raw + ")")
@@ -403,6 +438,12 @@ var representative = map[string]string{
 	"fncap-": "slot-", "fncap2-": "slot-", "fndrop-": "slot-", "capslot-": "slot-", "capchain-": "slot-",
 	"fwdslot-": "slot-", "fwdinner-": "slot-", "fwdafter-": "slot-", "fwdtwice-": "slot-", "fwdign-": "slot-", "fwdpass-": "slot-", "fwdsame-": "slot-", "fwdnop-": "slot-", "fwd2-": "slot-",
 	"twice+": "slot+", "pass+": "slot+", "after+": "slot+", "inner+": "ign+",
+}
+
+func init() {
+	for base := range wrapperBases {
+		representative[base+"-"] = "slot-"
+	}
 }
 
 // renamings returns every forest obtained by renaming one node to its class
@@ -946,7 +987,7 @@ func threeNodeKinds() []string {
 	skip := map[string]bool{"fwdslot": true, "fwdtwice": true, "fwdign": true, "fwdpass": true}
 	var ks []string
 	for _, k := range allKinds {
-		if !skip[k[:len(k)-1]] {
+		if _, isWrapper := wrapperBases[k[:len(k)-1]]; !skip[k[:len(k)-1]] && !isWrapper {
 			ks = append(ks, k)
 		}
 	}
@@ -958,7 +999,7 @@ var reducedKinds = []string{"slot-", "slot+", "ign+", "twice-", "twice+", "pass-
 
 // Run is the C13 check.
 func Run(c *core.Ctx) {
-	c.Rule = "cases = call trees (forests of calls; kinds: generated callees slot/ign/twice/pass/inner/after and legacy call syntax, hand-written OnceHandle.Once, Once(WithComponent), templ.Flush, templ.Join, function components reading/ignoring children, function components capturing their children into a buffer of their own (written once, twice, discarded; hand-written and generated capture layers around a slot callee), forwarding wrappers that hand their children (wrapped, unwrapped, replaced by nothing, through a chain of two) to a generated callee with WithChildren without clearing, WithChildren from code; each with and without a block) rendered by one compiled interpreter whose dispatcher is expanded inline for 3 levels; oracle = reference call-tree semantics, exact marker structure on the HTML5 token stream; exhaustive part: every forest with <=2 nodes over all kinds, 3 nodes over all kinds but four redundant forwarders (thorough: all kinds) and over a reduced kind set (N=4, thorough); non-trivial = tree with a block given to a wrapper/ignoring callee followed in preorder by a block-less call to a slot-rendering callee; distinct by canonical tree text"
+	c.Rule = "cases = call trees (forests of calls; kinds: generated callees slot/ign/twice/pass/inner/after and legacy call syntax, hand-written OnceHandle.Once, Once(WithComponent), templ.Flush, templ.Join, function components reading/ignoring children, function components capturing their children into a buffer of their own (written once, twice, discarded; hand-written and generated capture layers around a slot callee), generated wrapper templates whose call site has a special source shape (whitespace-only / Go-comment-only / HTML-comment-only block, exactly { children... }, twice, plus text, inside an if, block-less call followed by { children... } or { expr } on the next line; over slot/twice/ign callees), forwarding wrappers that hand their children (wrapped, unwrapped, replaced by nothing, through a chain of two) to a generated callee with WithChildren without clearing, WithChildren from code; each with and without a block) rendered by one compiled interpreter whose dispatcher is expanded inline for 3 levels; oracle = reference call-tree semantics, exact marker structure on the HTML5 token stream; exhaustive part: every forest with <=2 nodes over all kinds, 3 nodes over all kinds but four redundant forwarders and the source-shape wrappers (thorough: all kinds) and over a reduced kind set (N=4, thorough); non-trivial = tree with a block given to a wrapper/ignoring callee followed in preorder by a block-less call to a slot-rendering callee; distinct by canonical tree text"
 	c.Assume("hand-written function components follow the documented protocol (GetChildren, then ClearChildren before rendering anything else)")
 	c.Assume("golang.org/x/net/html tokenizer")
 	e := build(c)
